@@ -745,6 +745,18 @@ def r5(ctx, r):
     END, PTR, recvar = lims[0][0]["n"], curs[0]["n"], lims[0][2]
 
     def edge(c, truth):
+        # A branch on a value that was computed as a short-circuit expression and only tested once (`const bool bad = a || b; if (bad)`
+        # — Block.cond puts the initialiser in place of the local) is read as its operands: the false edge of `a || b` means both were
+        # evaluated and false, the true edge of `a && b` both true; `!x` swaps the edge.  (The other edge of each says nothing.)
+        c = strip_casts(c)
+        if c is None:
+            return []
+        if c.get("k") == "un" and c.get("op") == "!" and isinstance(c.get("v"), dict):
+            return edge(c["v"], not truth)
+        if c.get("k") == "bin" and c.get("op") in ("||", "&&"):
+            if truth is (c["op"] == "&&"):
+                return edge(c["lhs"], truth) + edge(c["rhs"], truth)
+            return []
         ops = []
         cp = common.cmp_parts(c)
         if cp:
